@@ -438,7 +438,9 @@ class _MExpr:
     def __and__(self, other):
         return And(self, other)
 
-    __rand__ = __and__
+    def __rand__(self, other):
+        # other & self: other comes first
+        return And(other, self)
 
     def __or__(self, other):
         return Or(self, other)
@@ -555,7 +557,9 @@ class _MType:
     def __and__(self, other):
         return And(self, other)
 
-    __rand__ = __and__
+    def __rand__(self, other):
+        # other & self: other comes first
+        return And(other, self)
 
     def __or__(self, other):
         return Or(self, other)
